@@ -1,5 +1,6 @@
 import Lean.Data.Json
 import GBS.Model.Gen
+import GBS.Extracted.Choose
 import GBS.Model.Mixture
 import GBS.Model.SysGen
 import GBS.Model.FF
